@@ -198,8 +198,52 @@ func verifGenCase(r *vh.Rng, thorough bool) (kind string, w uint, m uint64, ops 
 	return kind, w, m, ops
 }
 
+// verifSmallSpaces enumerates every history of check+accept up to length L over every number of
+// a tiny sequence space (and one above it), for every small window: the corner where the window is
+// larger than the space and where the half-space boundary is one step away.
+func verifSmallSpaces(o *vh.Out, shard, shards int, thorough bool) {
+	maxM, maxW, maxL := 4, 6, 4
+	if thorough {
+		maxM, maxW, maxL = 5, 9, 5
+	}
+	k := 0
+	for _, kind := range []string{"wrap", "plain"} {
+		for m := 0; m <= maxM; m++ {
+			for w := 0; w <= maxW; w++ {
+				for L := 1; L <= maxL; L++ {
+					idx := make([]int, L)
+					for {
+						k++
+						if k%shards == shard {
+							ops := make([][2]string, L)
+							for i, x := range idx {
+								ops[i] = [2]string{"ca", strconv.Itoa(x)}
+							}
+							verifRunCase(o, fmt.Sprintf("s%d", k), kind, uint(w), uint64(m), ops)
+						}
+						// next tuple over 0..m+1
+						i := L - 1
+						for i >= 0 {
+							idx[i]++
+							if idx[i] <= m+1 {
+								break
+							}
+							idx[i] = 0
+							i--
+						}
+						if i < 0 {
+							break
+						}
+					}
+				}
+			}
+		}
+	}
+}
+
 func TestVerifReplay(t *testing.T) {
 	vh.RunShards(func(shard int, r *vh.Rng, o *vh.Out, n int) {
+		verifSmallSpaces(o, shard, vh.Shards(), vh.Thorough())
 		for i := 0; i < n; i++ {
 			kind, w, m, ops := verifGenCase(r, vh.Thorough())
 			verifRunCase(o, fmt.Sprintf("%d.%d", shard, i), kind, w, m, ops)
